@@ -59,6 +59,7 @@ def run(ck, F, E):
     converter_predicate(ck, F)
     token_length_rule(ck, F)
     answers_sent(ck, F, ml)
+    table_keyed_by_whole_uri(ck, F)
 
 
 def converter_predicate(ck, F):
@@ -221,8 +222,17 @@ def answers_sent(ck, F, ml):
         k += 1
         ok = False
         pd = hb.postdominators()
+        def sends(path, depth=0):
+            if "send_notification" in path:
+                return True
+            cb = F.bodies.get(path)
+            if cb is None or cb.crate != "abasic_lsp" or depth >= 2:
+                return False
+            cpd = cb.postdominators().get(0, set()) | {0}
+            return any(y.bb in cpd and (sends(y.callee, depth + 1) or y.callee.split("::")[-1] == "send" and "Sender" in y.callee)
+                       for y in cb.calls())
         for x in hb.calls():
-            if "send_notification" not in x.callee or not (x.bb in pd.get(c.bb, set()) or hb.dominates(c.bb, x.bb)):
+            if not sends(x.callee) or not (x.bb in pd.get(c.bb, set()) or hb.dominates(c.bb, x.bb)):
                 continue
             for a in x.args:
                 e = hb.expr(a, depth=30)
@@ -249,6 +259,44 @@ def answers_sent(ck, F, ml):
                    "%s no longer sends the notification it builds (on every path): diagnostics are computed but never reach the client" % p,
                    b.span)
     ck.floor("C20.send_notification bodies", n, 1)
+
+
+def table_keyed_by_whole_uri(ck, F):
+    """Tokens for a document are answered from the table entry of THAT document: the table is keyed by the document's whole URI
+    (`uri.to_string()`), not by a part of it -- keyed by `uri.path()`, `file:///a.bas` and `git:/a.bas?ref=HEAD` share an entry
+    and one is answered with the other's text."""
+    IDENT = {"to_string", "as_str", "clone", "into", "from", "as_ref", "deref", "borrow", "to_owned", "cast_request", "cast_notification",
+             "next", "into_iter", "last", "iter", "fmt", "format", "must_use", "new", "new_display", "unwrap", "branch"}
+    n = 0
+    bad = []
+    for p, b in sorted(F.bodies.items()):
+        if b.crate != "abasic_lsp":
+            continue
+        for c in b.calls():
+            nm = c.callee.split("::")[-1]
+            if nm not in ("insert", "get", "remove", "get_mut", "contains_key", "entry") or "HashMap" not in c.callee or len(c.args) < 2:
+                continue
+            if "SourceFileAnalyzer" not in " ".join(c.gargs) + str(b.local_ty(c.dest["local"])) + str(c.args[0].get("place", {}).get("ty", "")):
+                continue
+            e = b.expr(c.args[1], depth=30)
+            if "uri" not in show(e) and "uri" not in repr(e):
+                continue
+            n += 1
+            parts = []
+            for x in expr_calls(e):
+                xn = x[1].split("::")[-1]
+                hb = F.bodies.get(x[1])
+                if hb is not None and hb.crate == "abasic_lsp" and xn not in IDENT:
+                    parts += [y.callee.split("::")[-1] for y in hb.calls() if y.callee.split("::")[-1] not in IDENT]
+                elif xn not in IDENT:
+                    parts.append(xn)
+            if parts:
+                bad.append("%s(%s)" % (nm, ",".join(sorted(set(parts)))))
+    ck.floor("C20.document-table accesses keyed by a URI", n, 1)
+    ck.require(not bad, "C20:DIAG:table-keyed-by-the-whole-uri", "nothing filtered",
+               "%d table accesses, each keyed by the URI's full text" % n,
+               "the document table is keyed by a part or a transformation of the URI (%s): two documents whose URIs agree in that part "
+               "share an entry, and a token request for one is answered from the other's text" % "; ".join(sorted(set(bad))))
 
 
 def loops_header(ml):
